@@ -34,6 +34,8 @@ CONSTANTS Family,     \* "conc" | "seq"
           SeqHolders, \* set of <<api, coll>> the second thread holds (<<"none", 0>> : no holder)
           \* ---- family "fault": one call under a one-shot raw-lock fault at each operation index, then probes
           FltColls, FltApis, FltKeys, FltRels, FltHolders, FltMaxAt,
+          FltPersist,    \* {} : one-shot faults at index 1..FltMaxAt;  otherwise a set of <<leaf, op>> :
+                         \* the persistent "evil lock" profiles of tests/evil_*.rs (every `op` of that leaf panics)
           FltTryProbes,  \* collections probed with try_lock after the faulted call
           FltLockProbes, \* collections probed with a blocking lock after that
           \* ---- family "ctor": checked constructors over every member list (with repetition)
@@ -149,8 +151,10 @@ FltCalls ==
 ProbeSeq(S, api) == LET q == SetToSeq(S) IN [i \in 1..Len(q) |-> Call(api, q[i], "owned", "drop", <<>>)]
 FltScens == {[SeqSc0 EXCEPT !.progs = <<<<ca>> \o ProbeSeq(FltTryProbes, "try_lock") \o ProbeSeq(FltLockProbes, "lock"),
                                         HolderProg(h)>>,
-                            !.faults = [k |-> "oneshot", at |-> n]] :
-               ca \in FltCalls, h \in FltHolders, n \in 1..FltMaxAt}
+                            !.faults = f] :
+               ca \in FltCalls, h \in FltHolders,
+               f \in IF FltPersist = {} THEN {[k |-> "oneshot", at |-> n] : n \in 1..FltMaxAt}
+                     ELSE {[k |-> "persist", l |-> p[1], ops |-> <<p[2]>>] : p \in FltPersist}}
 
 (***************************************************************************)
 (* Family "ctor": TLC as the enumerator of constructor inputs: every member *)
